@@ -148,6 +148,9 @@ type Raft struct {
 	// A channel used to respond to membership change requests.
 	configurationResponseCh chan Result[Configuration]
 
+	// The log index of the configuration entry that configurationResponseCh is waiting on.
+	configurationResponseIndex uint64
+
 	// Maps ID to the state of the other nodes in the cluster.
 	// Maintained by the leader.
 	followers map[string]*follower
@@ -622,6 +625,8 @@ func (r *Raft) AddServer(
 
 	// Add the configuration to the log.
 	r.appendConfiguration(&configuration)
+	r.configurationResponseCh = configurationFuture.responseCh
+	r.configurationResponseIndex = configuration.Index
 
 	r.configuration = &configuration
 	r.followers[id] = &follower{nextIndex: 1}
@@ -685,6 +690,8 @@ func (r *Raft) RemoveServer(id string, timeout time.Duration) Future[Configurati
 
 	// Add the configuration to the log.
 	r.appendConfiguration(&configuration)
+	r.configurationResponseCh = configurationFuture.responseCh
+	r.configurationResponseIndex = configuration.Index
 
 	r.sendAppendEntriesToPeers()
 
@@ -1790,7 +1797,10 @@ func (r *Raft) applyLoop() {
 			case NoOpEntry:
 			case ConfigurationEntry:
 				r.applyConfiguration(entry.Data)
-				respond(r.configurationResponseCh, *r.configuration, nil)
+				if r.configurationResponseCh != nil && entry.Index == r.configurationResponseIndex {
+					respond(r.configurationResponseCh, *r.configuration, nil)
+					r.configurationResponseCh = nil
+				}
 			case OperationEntry:
 				responseCh := r.operationManager.pendingReplicated[entry.Index]
 				delete(r.operationManager.pendingReplicated, entry.Index)
@@ -1944,6 +1954,10 @@ func (r *Raft) becomeFollower(leaderID string, term uint64) {
 	// Cancel any pending operations.
 	r.operationManager.notifyLostLeaderShip(r.id, r.leaderID)
 	r.operationManager = newOperationManager(r.options.leaseDuration)
+	if r.configurationResponseCh != nil {
+		respond(r.configurationResponseCh, Configuration{}, ErrNotLeader)
+		r.configurationResponseCh = nil
+	}
 
 	r.logger.Infof("entered the follower state: term = %d", r.currentTerm)
 }
@@ -2115,6 +2129,6 @@ func (r *Raft) isSingleServerCluster() bool {
 // pendingConfigurationChange returns true if the current configuration
 // has not been committed.
 func (r *Raft) pendingConfigurationChange() bool {
-	return r.committedConfiguration == nil ||
+	return r.configurationResponseCh != nil || r.committedConfiguration == nil ||
 		r.committedConfiguration.Index != r.configuration.Index
 }
